@@ -522,9 +522,9 @@ func (s *Service) issue(ctx context.Context, peer boson.Address, recipient, bene
 		return ErrInsufficientFunds
 	}
 
-	cumulativePayout := traffic.retrieveChequeTraffic
-	// increase cumulativePayout by amount
-	cumulativePayout = cumulativePayout.Add(cumulativePayout, balance)
+	// increase cumulativePayout by amount; never add in place: after a chain refresh
+	// retrieveChequeTraffic may be the very big.Int that holds retrieveChainTraffic
+	cumulativePayout := new(big.Int).Add(traffic.retrieveChequeTraffic, balance)
 	// create and sign the new cheque
 	c := chequePkg.Cheque{
 		Recipient:        recipient,
